@@ -159,6 +159,10 @@ def result_uses(fn, start_local, ra=None):
                         work.append((d['l'], nk))
                 elif k == 'agg' and any(_uses_local(o, c) for o in rv['ops']):
                     if kind == 'res':
+                        idx = [i for i, o in enumerate(rv['ops']) if _uses_local(o, c)]
+                        if rv.get('agg') == 'tuple' and not d['p'] and len(idx) == 1 and \
+                                _tuple_field_uses(fn, d['l'], idx[0], kind, ra, uses, work):
+                            continue
                         uses.append(ResUse('escaped', 'placed in an aggregate', bi, s['line']))
             t = b['term']
             if t['k'] == 'switch' and _uses_local(t['op'], c) and kind in ('bool_ok', 'bool_err'):
@@ -208,6 +212,58 @@ def result_uses(fn, start_local, ra=None):
                 uses.append(ResUse('escaped', 'passed to ' + (t['f'].get('full') or path or 'indirect call'),
                                    bi, t['line']))
     return uses, carriers
+
+
+def _tuple_field_uses(fn, tl, idx, kind, ra, uses, work):
+    """`match (r1, r2) { (Err(e), _) => .., (Ok(..), Err(e)) => .., (Ok(..), Ok(..)) => .. }`: the carrier sits in field
+    `idx` of the local tuple `tl`. Handled when the tuple is only matched (discriminant reads of its fields, payload
+    extraction, a whole field moved out): the field counts as checked when a switch on its discriminant has a
+    rejecting arm and every accepting path passes that switch (later reads, e.g. the drop elaboration at the end of
+    the scope, decide nothing any more). Returns False when the tuple is used in any other way."""
+    found = []
+    for bi, b in enumerate(fn.blocks):
+        if b.get('cleanup'):
+            continue
+        for s in b['stmts']:
+            if s['k'] != 'assign':
+                continue
+            rv, d = s['rv'], s['place']
+            if rv['k'] == 'discr' and rv['place']['l'] == tl:
+                pj = rv['place']['p']
+                if len(pj) == 1 and pj[0].get('f') == idx and not d['p']:
+                    tmp = []
+                    _switch_use(fn, d['l'], bi, kind, ra, tmp, s['line'])
+                    found += tmp
+                continue
+            if rv['k'] == 'use' and _uses_local(rv['a'], tl):
+                pj = op_place(rv['a'])['p']
+                if not pj:
+                    return False                     # the tuple itself moves on
+                if pj[0].get('f') == idx and len(pj) == 1:
+                    if d['p']:
+                        return False
+                    work.append((d['l'], kind))     # the whole field is moved out: follow it
+                continue
+            if rv['k'] in ('ref', 'agg'):
+                ops = [rv['place']] if rv['k'] == 'ref' else [op_place(o) for o in rv['ops']]
+                if any(o is not None and o['l'] == tl and (not o['p'] or (o['p'][0].get('f') == idx and len(o['p']) == 1))
+                       for o in ops):
+                    return False
+        t = b['term']
+        if t['k'] == 'call':
+            for a in t.get('args', []):
+                o = op_place(a)
+                if o is not None and o['l'] == tl and (not o['p'] or (o['p'][0].get('f') == idx and len(o['p']) == 1)):
+                    return False
+    deciding = [u for u in found if u.kind == 'checked' and must_pass_through(fn, {u.bb}, 'accept') is None]
+    if deciding:
+        uses.append(deciding[0])
+        return True
+    if found:
+        uses.append(ResUse('swallowed', 'tuple field matched, but an accepting path avoids every switch with a rejecting arm',
+                           found[0].bb, found[0].line))
+        return True
+    return False
 
 
 def _switch_use(fn, dl, bi, kind, ra, uses, line):
